@@ -75,7 +75,8 @@ type Machine struct {
 	envTags    map[*Term]bool
 	natives    map[string]interface{} // per-path engine objects (stores, ctx)
 	symDecides int
-	curRep     *EntryReport
+	guards     []*Term // active vp.SetIf conditions (guarded store writes)
+	curRep    *EntryReport
 	curMu      *sync.Mutex
 }
 
